@@ -87,6 +87,8 @@ pub fn run(kind: &str, args: &[String]) -> i32 {
         "uuid" => uuids(&mut sink, &opts),
         "threads" => threads(&mut sink, &opts),
         "frameiter" => frameiter(&mut sink, &opts),
+        "soup" => soup(&mut sink, &opts),
+        "threadstext" => threads_text(&mut sink, &opts),
         "recorditer" => recorditer(&mut sink, &opts),
         _ => {
             eprintln!("unknown trace kind {kind}");
@@ -648,6 +650,37 @@ fn cache(sink: &mut Sink, o: &Opts) {
                         copies.push(b);
                     }
                 }
+                // history: a write that fails at sink call i (and one whose sink panics) must not influence
+                // the writes that follow it in the same process
+                for fail_at in [0usize, 1, 2, 3, 5, 8] {
+                    let _ = crate::sink::run(src, [vec![1 << 30; fail_at], vec![-2]].concat(), 1 << 30);
+                    if let Ok(b) = crate::handles::write_cache(src) {
+                        copies.push(b);
+                    }
+                }
+                {
+                    struct Boom(usize);
+                    impl std::io::Write for Boom {
+                        fn write(&mut self, b: &[u8]) -> std::io::Result<usize> {
+                            if self.0 == 0 {
+                                panic!("sink panicked");
+                            }
+                            self.0 -= 1;
+                            Ok(b.len())
+                        }
+                        fn flush(&mut self) -> std::io::Result<()> {
+                            Ok(())
+                        }
+                    }
+                    let s2 = src.clone();
+                    let _ = guarded(move || {
+                        let mut w = Boom(2);
+                        proguard::ProguardCache::write(&proguard::ProguardMapping::new(&s2), &mut w)
+                    });
+                    if let Ok(b) = crate::handles::write_cache(src) {
+                        copies.push(b);
+                    }
+                }
                 let handles: Vec<_> = (0..4)
                     .map(|_| {
                         let s2 = src.clone();
@@ -1002,7 +1035,23 @@ fn uuids(sink: &mut Sink, o: &Opts) {
         }
         // a clone of the mapping and a second call in this process
         again.push(enc::bytes(proguard::ProguardMapping::new(&bytes.clone()).uuid().as_bytes()));
+        let m = proguard::ProguardMapping::new(bytes);
+        let first = m.uuid();
+        again.push(enc::bytes(m.clone().uuid().as_bytes()));
+        again.push(enc::bytes(first.as_bytes()));
         sink.emit(json!({"bytes": enc::bytes(bytes), "uuid": enc::bytes(id.as_bytes()), "again": again}));
+        // sub-mappings: the identifier of a section is that of its own bytes, whether the section is
+        // taken before or after the parent was asked for its identifier
+        if bytes.len() >= 2 && bytes.len() <= 600 {
+            let (a, b) = (rng.below(bytes.len() / 2), bytes.len() / 2 + rng.below(bytes.len() / 2));
+            let fresh = proguard::ProguardMapping::new(bytes);
+            let before = fresh.section(a..b).uuid();
+            let _ = fresh.uuid();
+            let after = fresh.section(a..b).uuid();
+            let after_clone = fresh.clone().section(a..b).uuid();
+            sink.emit(json!({"bytes": enc::bytes(&bytes[a..b]), "uuid": enc::bytes(before.as_bytes()),
+                             "again": [enc::bytes(after.as_bytes()), enc::bytes(after_clone.as_bytes())]}));
+        }
     }
     let _ = std::fs::remove_dir_all(&dir);
 }
@@ -1139,4 +1188,192 @@ fn recorditer(sink: &mut Sink, o: &Opts) {
         }
     }
     sink.emit(json!({"t": "end"}));
+}
+
+/// C13/C16: bounded-exhaustive token strings through the text entry points; only completion (and
+/// mapper = cache for signatures) is required, so results are summarised: one event per API with
+/// the number of strings tried and the failing ones
+fn soup(sink: &mut Sink, o: &Opts) {
+    let depth: usize = opt_value(o, "--depth").map(|s| s.parse().unwrap()).unwrap_or(5);
+    let mapping = b"com.X -> x:\n    void run() -> m\n\xc3\xa9.Y -> \xc3\xa9:\n".to_vec();
+    fn strings(tokens: &[&str], depth: usize) -> Vec<String> {
+        let mut all = vec![String::new()];
+        let mut level = vec![String::new()];
+        for _ in 0..depth {
+            let mut next = Vec::with_capacity(level.len() * tokens.len());
+            for s in &level {
+                for t in tokens {
+                    next.push(format!("{s}{t}"));
+                }
+            }
+            all.extend(next.iter().cloned());
+            level = next;
+        }
+        all
+    }
+    let bytes = crate::handles::write_cache(&mapping).expect("cache");
+    let buf = crate::handles::Aligned::new(&bytes);
+    let cache = proguard::ProguardCache::parse(buf.bytes()).expect("parse");
+    let mapper = proguard::ProguardMapper::new(proguard::ProguardMapping::new(&mapping));
+    // signatures
+    let sig_tokens = ["(", ")", "L", ";", "[", "I", "V", "\u{e9}", "x", "\u{1f600}"];
+    let mut tried = 0usize;
+    let mut failing: Vec<Value> = vec![];
+    for s in strings(&sig_tokens, depth) {
+        tried += 1;
+        let (m, c) = (std::panic::AssertUnwindSafe(&mapper), std::panic::AssertUnwindSafe(&cache));
+        let s2 = s.clone();
+        let r = guarded(move || {
+            let a = m.deobfuscate_signature(&s2).map(|d| (d.parameters_types().map(|x| x.to_string()).collect::<Vec<_>>(), d.return_type().to_string()));
+            let b = c.deobfuscate_signature(&s2).map(|d| (d.parameters_types().map(|x| x.to_string()).collect::<Vec<_>>(), d.return_type().to_string()));
+            a == b
+        });
+        match r {
+            Ok(true) => {}
+            Ok(false) => failing.push(json!({"arg": enc::s(&s), "what": "mapper and cache disagree"})),
+            Err(p) => failing.push(json!({"arg": enc::s(&s), "what": format!("panic: {p}")})),
+        }
+    }
+    failing.truncate(20);
+    sink.emit(json!({"t": "soup", "api": "deobfuscate_signature", "tried": tried, "failing": failing}));
+    // stack trace text: line classifiers, whole-trace parser, text and typed remapping
+    let line_tokens = ["at ", "(", ")", ":", ".", "\u{e9}", "1", " ", "Caused by: ", "x", "\n", ": ", "\u{a0}"];
+    let mut tried = 0usize;
+    let mut failing: Vec<Value> = vec![];
+    for s in strings(&line_tokens, depth.min(5)) {
+        tried += 1;
+        let (m, c) = (std::panic::AssertUnwindSafe(&mapper), std::panic::AssertUnwindSafe(&cache));
+        let s2 = s.clone();
+        let r = guarded(move || {
+            let _ = proguard::StackFrame::try_parse(s2.as_bytes());
+            let _ = proguard::Throwable::try_parse(s2.as_bytes());
+            if let Some(t) = proguard::StackTrace::try_parse(s2.as_bytes()) {
+                let _ = t.to_string();
+                let _ = m.remap_stacktrace_typed(&t);
+                let _ = c.remap_stacktrace_typed(&t);
+            }
+            m.remap_stacktrace(&s2).is_ok() && c.remap_stacktrace(&s2).is_ok()
+        });
+        match r {
+            Ok(true) => {}
+            Ok(false) => failing.push(json!({"arg": enc::s(&s), "what": "remap_stacktrace returned Err"})),
+            Err(p) => failing.push(json!({"arg": enc::s(&s), "what": format!("panic: {p}")})),
+        }
+    }
+    failing.truncate(20);
+    sink.emit(json!({"t": "soup", "api": "stack trace text", "tried": tried, "failing": failing}));
+}
+
+/// C20 (typed / text / signature APIs): shared mapper and cache, 8..16 threads behind a barrier, every
+/// thread repeats every call `reps` times; an event carries the first result and every result that
+/// differed from it
+fn threads_text(sink: &mut Sink, o: &Opts) {
+    use std::sync::{Arc, Barrier, Mutex};
+    let mut rng = Rng::new(o.seed);
+    let reps: usize = opt_value(o, "--reps").map(|s| s.parse().unwrap()).unwrap_or(40);
+    let mut sessions: Vec<Vec<u8>> = vec![];
+    let cfg = gen::MapCfg { max_classes: 4, max_members: 6, wild: false, noise: true };
+    for _ in 0..o.n {
+        sessions.push(gen::mapping(&mut rng, &cfg));
+    }
+    for (sid, src) in sessions.iter().enumerate() {
+        sink.emit(json!({"t": "load", "sid": sid + 1, "src": enc::bytes(src)}));
+    }
+    for (sid, src) in sessions.iter().enumerate() {
+        let uni = gen::universe(src);
+        // deep cause chains, texts and descriptors
+        let mut work: Vec<Value> = vec![];
+        for _ in 0..6 {
+            let mut levels = vec![];
+            let depth = rng.range(8, 14);
+            for d in 0..depth {
+                let l = gen::typed_levels(&mut rng, &uni, true);
+                let mut lv = l[0].clone();
+                if d > 0 && lv["exception"] == json!([]) {
+                    lv["exception"] = json!([{"class": enc::s("zz.E"), "message": []}]);
+                }
+                levels.push(lv);
+            }
+            work.push(json!({"t": "typed", "levels": levels}));
+        }
+        for _ in 0..4 {
+            work.push(json!({"t": "text", "text": enc::s(&gen::trace_text(&mut rng, &uni))}));
+            work.push(json!({"t": "sig", "sig": enc::s(&gen::descriptor(&mut rng, &uni))}));
+        }
+        let bytes = match crate::handles::write_cache(src) {
+            Ok(b) => b,
+            Err(_) => continue,
+        };
+        let buf = crate::handles::Aligned::new(&bytes);
+        let Ok(cache) = proguard::ProguardCache::parse(buf.bytes()) else { continue };
+        let mapper = proguard::ProguardMapper::new(proguard::ProguardMapping::new(src));
+        let nthreads = 16;
+        let barrier = Arc::new(Barrier::new(nthreads));
+        let results: Mutex<Vec<Value>> = Mutex::new(vec![]);
+        std::thread::scope(|scope| {
+            for tid in 0..nthreads {
+                let barrier = barrier.clone();
+                let (work, results, mapper, cache) = (&work, &results, &mapper, &cache);
+                scope.spawn(move || {
+                    barrier.wait();
+                    let mut local = vec![];
+                    for (k, w) in work.iter().enumerate() {
+                        let run = || -> Value {
+                            match w["t"].as_str().unwrap() {
+                                "typed" => {
+                                    let t = crate::traces::build_trace(&w["levels"]);
+                                    let printed = t.to_string();
+                                    let m = mapper.remap_stacktrace_typed(&t);
+                                    let c = cache.remap_stacktrace_typed(&t);
+                                    json!({"mapper": {"typed": enc::stacktrace(&m), "agrees_with_text": mapper.remap_stacktrace(&printed).ok() == Some(m.to_string())},
+                                           "cache": {"typed": enc::stacktrace(&c), "agrees_with_text": cache.remap_stacktrace(&printed).ok() == Some(c.to_string())}})
+                                }
+                                "text" => {
+                                    let text = crate::handles::utf8(&w["text"]);
+                                    json!({"mapper": enc::s(&mapper.remap_stacktrace(&text).unwrap_or_default()),
+                                           "cache": enc::s(&cache.remap_stacktrace(&text).unwrap_or_default())})
+                                }
+                                _ => {
+                                    let sig = crate::handles::utf8(&w["sig"]);
+                                    let f = |d: Option<proguard::DeobfuscatedSignature>| match d {
+                                        None => json!([]),
+                                        Some(d) => json!([{"params": d.parameters_types().map(enc::s).collect::<Vec<_>>(), "ret": enc::s(d.return_type()), "formatted": enc::s(&d.format_signature())}]),
+                                    };
+                                    json!({"mapper": f(mapper.deobfuscate_signature(&sig)), "cache": f(cache.deobfuscate_signature(&sig))})
+                                }
+                            }
+                        };
+                        let first = run();
+                        let mut others: Vec<Value> = vec![];
+                        for _ in 0..reps {
+                            let again = run();
+                            if again != first && !others.contains(&again) {
+                                others.push(again);
+                            }
+                        }
+                        let mut ev = w.clone();
+                        ev["sid"] = json!(sid + 1);
+                        ev["thread"] = json!(tid);
+                        ev["seq"] = json!(k);
+                        ev["out"] = first;
+                        ev["others"] = Value::Array(others);
+                        if ev["t"] == "text" {
+                            // line classifications as recorded by the public parsers (see Trace_Text)
+                            let text = crate::handles::utf8(&w["text"]);
+                            ev["lines"] = Value::Array(text.lines().map(|l| {
+                                let cause = match l.strip_prefix("Caused by: ") { Some(r) => opt_throwable_of(r.as_bytes()), None => json!([]) };
+                                let frame = match proguard::StackFrame::try_parse(l.as_bytes()) { None => json!([]), Some(f) => json!([enc::frame(&f)]) };
+                                json!({"thr": opt_throwable_of(l.as_bytes()), "frame": frame, "cause": cause})
+                            }).collect());
+                        }
+                        local.push(ev);
+                    }
+                    results.lock().unwrap().extend(local);
+                });
+            }
+        });
+        for ev in results.into_inner().unwrap() {
+            sink.emit(ev);
+        }
+    }
 }
